@@ -139,16 +139,36 @@ def _holds(fn, cond, sense, classify, depth=0):
     if n.get('k') == 'unop' and n.get('op') == '!':
         return _holds(fn, n['sub'], not sense, classify, depth + 1)
     r = classify(fn, c)
-    return r is not None and ((r == 'T') == sense)
+    if r is not None:
+        return (r == 'T') == sense
+    if n.get('k') == 'var' and n.get('vk') == 'local':
+        init = single_init(fn, n['d'], pure=False)        # `const bool ok = check(x); if (!ok) ...`
+        if init is not None:
+            return _holds(fn, init, sense, classify, depth + 1)
+    return False
 
 
 def classify_edges(fn, classify):
     """classify(fn, atomic cond id) -> 'T' (fact holds when the condition is true) | 'F' (when it is false) | None.
     Returns the set of pass edges {(block id, successor index)} on which the fact is established, looking at the whole
-    terminator condition (join blocks of negated / parenthesised conditions) and at the operand decided in the block."""
+    terminator condition (join blocks of negated / parenthesised conditions), at the operand decided in the block, and at
+    the case edges of a switch over the subject (classifiers built here carry `on_switch`)."""
     out = set()
+    on_switch = getattr(classify, 'on_switch', None)
     for blk in fn.blocks.values():
-        if 'cond' not in blk or len(blk['succs']) != 2 or blk.get('termcls') == 'SwitchStmt':
+        if 'cond' not in blk:
+            continue
+        if blk.get('termcls') == 'SwitchStmt':
+            if on_switch is None:
+                continue
+            for idx, s2 in enumerate(blk['succs']):
+                if s2 is None:
+                    continue
+                lab = fn.blocks[s2].get('label') or {}
+                if 'case' in lab and on_switch(fn, blk['cond'], lab['case']):
+                    out.add((blk['id'], idx))
+            continue
+        if len(blk['succs']) != 2:
             continue
         conds = [blk['cond']]
         e = effective_cond(fn, blk)
@@ -171,25 +191,84 @@ def matching_conds(fn, classify):
     return out
 
 
-def deep_roots(fn, nid, depth=0):
-    """local_roots with single-definition locals (`const auto n = static_cast<T>(len);`) replaced by the roots of their
-    initialiser."""
+_PURE_CALLS = ('size', 'length', 'data', 'c_str', 'empty', 'strlen', 'distance', 'get', 'value', 'begin', 'end', 'cbegin', 'cend',
+               'min', 'max', 'move', 'forward', 'addressof', 'operator*', 'operator->')
+
+
+def _pure_expr(fn, nid):
+    """expression built from locals, constants, casts, arithmetic and const accessors only (its value is a function of the
+    variables it reads; evaluating it has no effect)."""
+    for x in fn.subtree(nid):
+        n = fn.nodes[x]
+        k = n.get('k')
+        if k in ('var', 'lit', 'icast', 'cast', 'wrap', 'binop', 'member', 'sizeof', 'this', 'index', 'condop'):
+            continue
+        if k == 'unop' and n.get('op') not in ('++', '--'):
+            continue
+        if k == 'construct' and (n.get('elidable') or n.get('copymove')):
+            continue
+        if k == 'call':
+            q = n.get('q') or n.get('name') or ''
+            if q.rsplit('::', 1)[-1] in _PURE_CALLS or n.get('op') in CMP + ('!', '-', '+', '*', '->'):
+                continue
+        return False
+    return True
+
+
+def single_init(fn, d, pure=True):
+    """initialiser of a local that is defined exactly once, by its declaration (and, if `pure`, by a pure expression)."""
+    if is_param(fn, d):
+        return None
+    cache = fn.__dict__.setdefault('_c03_single_init', {})
+    if (d, pure) in cache:
+        return cache[(d, pure)]
+    res = None
+    ds = definitions(fn, d)
+    if len(ds) == 1 and fn.nodes[ds[0]].get('k') == 'decl':
+        for v in fn.nodes[ds[0]]['vars']:
+            if v['d'] == d and isinstance(v.get('init'), int):
+                if not pure or _pure_expr(fn, v['init']):
+                    res = v['init']
+    cache[(d, pure)] = res
+    return res
+
+
+def resolve_local(fn, nid, depth=0):
+    """follow a named local (`const auto status = f(x);` ... `status`) to the expression it names; other nodes unchanged."""
+    x = fn.strip(nid)
+    n = fn.nodes.get(x)
+    while n is not None and n.get('k') == 'var' and n.get('vk') == 'local' and depth < 4:
+        init = single_init(fn, n['d'], pure=False)
+        if init is None:
+            break
+        x = fn.strip(init)
+        n = fn.nodes.get(x)
+        depth += 1
+    return x
+
+
+def deep_roots(fn, nid, depth=0, stop=()):
+    """local_roots with named locals for pure sub-expressions (`const auto n = static_cast<T>(len);`) replaced by the
+    roots of their initialiser; roots listed in `stop` are kept as they are."""
     out = set()
     for r in local_roots(fn, nid):
-        if r[0] == 'var' and not is_param(fn, r[1]) and depth < 4:
-            ds = definitions(fn, r[1])
-            init = None
-            if len(ds) == 1 and fn.nodes[ds[0]].get('k') == 'decl':
-                for v in fn.nodes[ds[0]]['vars']:
-                    if v['d'] == r[1] and isinstance(v.get('init'), int):
-                        init = v['init']
+        if r[0] == 'var' and depth < 4 and r not in stop:
+            init = single_init(fn, r[1])
             if init is not None:
-                sub = deep_roots(fn, init, depth + 1)
+                sub = deep_roots(fn, init, depth + 1, stop)
                 if sub:
                     out |= sub
                     continue
         out.add(r)
     return out
+
+
+def rooted_in(want):
+    """expression reads at least one of the wanted roots and no other local storage (named locals looked through)."""
+    def f(fn, nid):
+        r = deep_roots(fn, nid, stop=want)
+        return bool(r) and r <= want
+    return f
 
 
 def upper_bound(is_subject, is_bound):
@@ -210,6 +289,7 @@ def upper_bound(is_subject, is_bound):
         if op in ('<', '<='):
             return 'T'
         return None
+    classify.on_switch = lambda fn, cond, label: is_subject(fn, cond) and is_bound(fn, label)
     return classify
 
 
@@ -231,6 +311,7 @@ def lower_bound(is_subject, is_bound):
         if op in ('>', '>='):
             return 'T'
         return None
+    classify.on_switch = lambda fn, cond, label: is_subject(fn, cond) and is_bound(fn, label)
     return classify
 
 
@@ -248,6 +329,10 @@ def equals(is_subject, is_value, want_equal=True):
         if op == '!=':
             return 'F' if want_equal else 'T'
         return None
+    if want_equal:
+        classify.on_switch = lambda fn, cond, label: is_subject(fn, cond) and is_value(fn, label)
+    else:
+        classify.on_switch = lambda fn, cond, label: is_subject(fn, cond) and fn.const_value(label) is not None and not is_value(fn, label)
     return classify
 
 
@@ -291,10 +376,11 @@ def reaches_unchecked(fn, starts, targets, pass_edges, barriers=()):
     return None
 
 
-def helper_barriers(fb, fn, subj, make_classifier):
+def helper_barriers(fb, fn, subj, make_classifier, depth=0):
     """Calls in fn that hand a value rooted in `subj` to a helper which establishes the fact itself: in the helper, no
-    path from the entry to a normal exit avoids the pass edges of make_classifier(<that parameter>).  Such a call is as
-    good as the inline test (`check_length(len);`), so it acts as a barrier for reaches_unchecked."""
+    path from the entry to a normal exit avoids the pass edges of make_classifier(<that parameter>) (or a nested helper
+    call of the same kind).  Such a call is as good as the inline test (`check_length(len);`), so it acts as a barrier for
+    reaches_unchecked."""
     out = []
     for c in fn.all_nodes():
         if c.get('k') != 'call' or not c.get('u'):
@@ -306,25 +392,104 @@ def helper_barriers(fb, fn, subj, make_classifier):
         for i, a in enumerate(c.get('args', []) or []):
             if a is None or i >= len(g.params):
                 continue
-            r = local_roots(fn, a)
+            r = deep_roots(fn, a, stop=subj)
             if not r or not r <= subj:
                 continue
+            if definitions(g, g.params[i]['d']):
+                continue
             ps = {('var', g.params[i]['d'])}
-
-            def is_subject(f, x, ps=ps):
-                rr = local_roots(f, x)
-                return bool(rr) and rr <= ps
-            pe = classify_edges(g, make_classifier(is_subject))
-            if not pe or definitions(g, g.params[i]['d']):
+            pe = classify_edges(g, make_classifier(rooted_in(ps)))
+            inner = set()
+            if depth < 2:
+                for b in helper_barriers(fb, g, ps, make_classifier, depth + 1):
+                    e = b if b in _elemset(g) else elem_of(g, b)
+                    if e is not None:
+                        inner.add(e)
+            if not pe and not inner:
                 continue
 
             def edge_ok(b, idx, s2, pe=pe):
                 return (b, idx) not in pe
             w = path_search(g, g.entry, lambda e: isinstance(e, tuple) and e[0] == 'exit',
-                            lambda e, g=g: g.nodes.get(e, {}).get('k') == 'throw', edge_ok, from_block_start=True)
+                            lambda e, g=g, inner=inner: g.nodes.get(e, {}).get('k') == 'throw' or e in inner, edge_ok, from_block_start=True)
             if w is None:
                 out.append(c['id'])
+                break
     return out
+
+
+def guarded(fb, fn, starts, targets, subj, make_classifiers, extra_pass=(), extra_barriers=()):
+    """The GUARD decision with every equivalent placement of the test accepted: inline branch, short-circuit operand,
+    negated / joined condition, named bool, switch case, checking helper (nested).  make_classifiers: one factory or a list
+    of factories `is_subject -> classifier` whose pass edges are united.  Returns a witness path or None."""
+    if callable(make_classifiers):
+        make_classifiers = [make_classifiers]
+    pe = set(extra_pass)
+    bars = list(extra_barriers)
+    for mk in make_classifiers:
+        pe |= classify_edges(fn, mk(rooted_in(subj)))
+        bars += helper_barriers(fb, fn, subj, mk)
+    barset = set(bars)
+    tg = [t for t in targets if t not in barset]
+    if not tg:
+        return None
+    return reaches_unchecked(fn, starts, tg, pe, barriers=bars)
+
+
+def guarded_ip(fb, fn, starts, targets, subj, make_classifiers, depth=0, **kw):
+    """guarded(), and when the protected operation sits in a helper whose parameters carry the value unchecked from the
+    entry (operation extracted into a helper, test left in the caller): every call site of that helper must guard the
+    corresponding arguments instead.  Returns (function, witness) of the first unguarded place, or None."""
+    w = guarded(fb, fn, starts, targets, subj, make_classifiers, **kw)
+    if w is None:
+        return None
+    if depth >= 2 or not w or w[0] != 'entry':
+        return (fn, w)
+    pidx = {}
+    for r in subj:
+        i = next((i for i, p in enumerate(fn.params) if r[0] == 'var' and p['d'] == r[1]), None)
+        if i is None or definitions(fn, fn.params[i]['d']):
+            return (fn, w)
+        pidx[i] = r
+    sites = []
+    for g in fb.functions:
+        if not g.has_cfg:
+            continue
+        for c in g.all_nodes():
+            if c.get('k') == 'call' and c.get('u') == fn.usr and c.get('u'):
+                sites.append((g, c))
+    if not sites:
+        return (fn, w)
+    seen = set()
+    for (g, c) in sites:
+        if (g.usr, g.pat, c['id']) in seen:
+            continue
+        seen.add((g.usr, g.pat, c['id']))
+        args = c.get('args', []) or []
+        sub2 = set()
+        for i in pidx:
+            if i >= len(args) or args[i] is None:
+                return (fn, w)
+            sub2 |= {r for r in deep_roots(g, args[i]) if r[0] == 'var'}
+            if fn_const(g, args[i]):
+                continue
+        if not sub2:
+            # constant arguments: nothing from the input flows in at this site
+            if all(i < len(args) and args[i] is not None and fn_const(g, args[i]) for i in pidx):
+                continue
+            return (g, ['entry', c['id']])
+        st = []
+        for r in sub2:
+            st += starts_for(g, r[1])
+        r2 = guarded_ip(fb, g, st, [c['id']], sub2, make_classifiers, depth + 1)
+        if r2 is not None:
+            return r2
+    return None
+
+
+def fn_const(fn, nid):
+    n = fn.sn(nid)
+    return fn.const_value(nid) is not None or (n is not None and n.get('k') == 'lit')
 
 
 def _elemset(fn):
